@@ -132,11 +132,16 @@ impl ProgGen {
             let op = match &p.op {
                 POp::Lit(w) => IOp::Word(w.clone()),
                 POp::Param { ty: PType::Sub(si), .. } => {
-                    let sr = &isa.subrules[*si];
-                    let alt = &sr.alts[t.below(sr.alts.len())];
-                    match &alt.op {
-                        POp::Lit(w) => IOp::Word(w.clone()),
-                        POp::Param { ty, .. } => Self::canon(self.operand_expr(t, *ty, names, info, cur_global)),
+                    // descend through nested sub-rules until a literal or an expression alternative is chosen
+                    let mut si = *si;
+                    loop {
+                        let sr = &isa.subrules[si];
+                        let alt = &sr.alts[t.below(sr.alts.len())];
+                        match &alt.op {
+                            POp::Lit(w) => break IOp::Word(w.clone()),
+                            POp::Param { ty: PType::Sub(sj), .. } => si = *sj,
+                            POp::Param { ty, .. } => break Self::canon(self.operand_expr(t, *ty, names, info, cur_global)),
+                        }
                     }
                 }
                 POp::Param { ty, .. } => {
